@@ -73,6 +73,8 @@ def names(case, scheme="plain"):
         return ["S", "S#SUBS#0", "#STARTUNION#"][:v], ["#0UNION#", "#1CONC#", "c"][:t]
     if scheme == "pda":
         return ["S", "#TERM#a", "#StartCFG#"][:v], TER_NAMES[:t]
+    if scheme == "mixedval":  # variable values of different types with one spelling
+        return [0, "0", 1][:v], TER_NAMES[:t]
     if scheme == "lower":
         return ["s", "x", "y"][:v], ["A", "Bc", "d"][:t]
     raise ValueError(scheme)
